@@ -5,6 +5,8 @@ ENGINES = [
 NOTES = 'All checks are runtime monitors over executions of the real headers; verdicts are "held on what was observed". See DESIGN.md.'
 NOT_YET = {}
 CHECK_TEXT = {
+    'C19': {'technique': 'runtime monitoring: byte-for-byte differential monitor against glibc vsnprintf over the full directive grid (arguments through an exact-size va_list), independent spec interpreter for fmt(), chunk-concatenation monitor for stack_buffer_logger, under ASan+UBSan'},
+    'C20': {'technique': 'runtime monitoring: ASan+UBSan with exact-size input buffers / option cells / variadic slots (slot count from an independent tokenizer) over bounded-exhaustive and generated inputs to the four parsers; panic-hook stops are accepted outcomes'},
     'C01': {'technique': 'runtime monitoring: shadow-model monitor (mapping registry, live-interval map, header range, alignment, stable size) on every block returned in seeded and bounded-exhaustive histories over 13 policy configurations, under ASan+UBSan'},
     'C02': {'technique': 'runtime monitoring: per-block pattern monitor + realloc/free semantic checks + per-class footprint invariant after every operation of seeded histories, under ASan+UBSan'},
     'C03': {'technique': 'runtime monitoring: policy-callback protocol monitor (map/unmap registry, page-counter deltas, byte-accurate poison shadow) with poison state forwarded to ASan so pool accesses to poisoned bytes are sanitizer reports'},
